@@ -362,7 +362,7 @@ def run_cut(shape):
     def body():
         Q = sp.DCsr(sarr([[SR(x) for x in row] for row in M0]))
         H = sp.coo_array(([1.0] * len(keys), ([k[0] for k in keys], [k[1] for k in keys])), shape=(n, n))
-        with bound(RM, csr_array=sp.DCsr, coo_array=sp.DCoo, diags=sp.ddiags, print=noprint, np=proxy), bound(T, print=noprint):
+        with bound(RM, csr_array=sp.DCsr, coo_array=sp.DCoo, diags=sp.ddiags, print=noprint, np=proxy), bound(T, print=noprint, np=proxy):
             s = T.SQRA(energies=sarr([SR(e) for e in E]), volumes=sarr([1.0] * n), distances=H, surfaces=H)
             try:
                 return s.cut_and_merge(Q, SR(Tt), SR(lo) if shape["lower"] else None, SR(up) if shape["upper"] else None)
